@@ -588,6 +588,7 @@ where
             max_size,
         })));
         let inner_task = inner.clone();
+        let started_done = self.is_done();
 
         // Process change events.
         let tx_send = tx.clone();
@@ -623,6 +624,11 @@ where
                             // A subscription taken after the collection was marked done is
                             // done from the start, but still delivers its initial value.
                             if inner.done && inner.complete {
+                                // Subscribers that joined while the initial value was still
+                                // being received have seen no done event so far.
+                                if started_done && tx_send.receiver_count() > 0 {
+                                    let _ = tx_send.send(HashSetEvent::Done);
+                                }
                                 break;
                             }
                         }
@@ -723,7 +729,7 @@ where
     pub async fn subscribe(&self, buffer: usize) -> Result<HashSetSubscription<T, Codec>, RecvError> {
         let view = self.borrow().await?;
         let initial = view.clone();
-        let events = if view.is_done() { None } else { Some(self.tx.subscribe(buffer)) };
+        let events = if view.is_done() && view.is_complete() { None } else { Some(self.tx.subscribe(buffer)) };
 
         Ok(HashSetSubscription::new(HashSetInitialValue::new_value(initial), events))
     }
@@ -738,7 +744,7 @@ where
     pub async fn subscribe_incremental(&self, buffer: usize) -> Result<HashSetSubscription<T, Codec>, RecvError> {
         let view = self.borrow().await?;
         let initial = view.clone();
-        let events = if view.is_done() { None } else { Some(self.tx.subscribe(buffer)) };
+        let events = if view.is_done() && view.is_complete() { None } else { Some(self.tx.subscribe(buffer)) };
 
         Ok(HashSetSubscription::new(
             HashSetInitialValue::new_incremental(initial, Arc::new(default_on_err)),
